@@ -29,13 +29,14 @@ def run(ctx: Ctx):
         "row_*/column_* and rows_*/columns_* properties of _Slice are mirror images (T(row twin) == column twin on "
         "canonicalised expressions; a token that differs is reported, a different shape is undecided)."
     )
-    ctx.not_decided = ["listed one-sided features (smoothing, squared base, pairwise tests, sort-rows-by-marginal / derived column, payload_order, rows_dimension_fills/alias, tab_label) are excluded by name"]
+    ctx.not_decided = ["listed one-sided features (smoothing, squared base, pairwise tests, payload_order, rows_dimension_fills/alias, tab_label) are excluded by name"]
     count_layouts(ctx)
     base_blocks(ctx)
     measure_pairs(ctx)
     marginal_branches(ctx)
     subtotal_methods(ctx)
     order_helpers(ctx)
+    order_dispatch_mirror(ctx)
     slice_properties(ctx)
     measure_dependence_mirror(ctx)
     from .common import axis_role_lint
@@ -571,3 +572,75 @@ def measure_dependence_mirror(ctx: Ctx):
                "both twins read the same leaf facts", not (only_r or only_c), "one twin depends on facts the other does not depend on")
     ctx.count("measure twins compared by dependence", n)
     ctx.require_min("measure twins compared by dependence", 10)
+
+
+def order_dispatch_mirror(ctx: Ctx):
+    """Which order helper serves a collation method is decided by two dispatch tables (`row_display_order`,
+    `column_display_order`); a transform mirrored onto the other dimension of the transposed response must be served by
+    the MIRROR helper.  Decision table over (collation method x kind of opposing dimension): the helper class the rows
+    dispatch picks, renamed by the transposition rewrite, must be the class the columns dispatch picks (and exist)."""
+    from ..dectab import DTop, ModelInterp, Raises
+    from ..mirror import swap_ident
+    from ..symex import SUMMARIZER
+    from ..typetab import dt_value
+
+    helper = ctx.repo.cls("matrix/assembler.py", "_BaseOrderHelper")
+    cm_cls = ctx.repo.cls("enums.py", "COLLATION_METHOD")
+    methods = sorted(n for n, e in cm_cls.consts.items() if isinstance(e, ast.Constant) and isinstance(e.value, str))
+    if len(methods) < 5:
+        raise AnalysisError("COLLATION_METHOD members not recognised")
+    tables = {}
+    for member, own, opp in (("row_display_order", 0, 1), ("column_display_order", 1, 0)):
+        m = ctx.repo.lookup(helper, member)
+        if m is None:
+            raise AnalysisError(f"_BaseOrderHelper.{member} vanished")
+        body = SUMMARIZER.summarize(m.node)
+        # the class whose `_display_order` is returned
+        sel = body.value if isinstance(body, ast.Attribute) else body
+        if isinstance(sel, ast.Call):
+            sel = sel.func
+        tab = {}
+        for cm in methods:
+            for opp_type in ("CAT", "MR_SUBVAR"):
+                def atoms(x, cm=cm, opp_type=opp_type, own=own, opp=opp):
+                    t = u(x)
+                    if t == f"dimensions[{own}].order_spec.collation_method":
+                        return cm
+                    if t in (f"dimensions[{opp}].dimension_type",):
+                        return opp_type
+                    if t == f"dimensions[{own}].dimension_type":
+                        return "CAT"
+                    if isinstance(x, ast.Attribute) and isinstance(x.value, ast.Name) and x.value.id == "CM":
+                        return x.attr
+                    if isinstance(x, ast.Attribute) and isinstance(x.value, ast.Name) and x.value.id == "DT":
+                        return dt_value(ctx.repo, x.attr)
+                    if isinstance(x, ast.Name) and x.id.startswith("_") and x.id.endswith("Helper"):
+                        return x.id
+                    raise KeyError
+
+                try:
+                    got = ModelInterp(atoms).ev(sel)
+                except (DTop, Raises) as exc:
+                    ctx.undecided("order-dispatch-mirror", f"matrix/assembler.py::_BaseOrderHelper.{member}", "DECTAB: " + str(exc), "helper class per collation method")
+                    return
+                tab[(cm, opp_type)] = got
+        tables[member] = tab
+    module = ctx.repo.module("matrix/assembler.py")
+    n = 0
+    for key in sorted(tables["row_display_order"]):
+        n += 1
+        r, c = tables["row_display_order"][key], tables["column_display_order"][key]
+        want = "_" + swap_ident(r.lstrip("_")) if isinstance(r, str) else None
+        # _SortRowsByBaseColumnHelper -> _SortColumnsByBaseRowHelper (CamelCase segments)
+        if isinstance(r, str):
+            want = re.sub(r"Rows|Columns|Row|Column", lambda mo: {"Rows": "Columns", "Columns": "Rows", "Row": "Column", "Column": "Row"}[mo.group(0)], r)
+        where = f"matrix/assembler.py::_BaseOrderHelper.column_display_order [{key[0]}, opposing dimension {'array' if key[1] != 'CAT' else 'categorical'}]"
+        if not isinstance(r, str) or not isinstance(c, str):
+            ctx.undecided("order-dispatch-mirror", where, f"rows: {r!r}, columns: {c!r}", "helper classes")
+        elif c == want:
+            ctx.held("order-dispatch-mirror", where, c, f"the mirror of {r}")
+        else:
+            ctx.violated("order-dispatch-mirror", where, f"{c} (rows get {r})", f"{want}" + ("" if want in module.classes else " - no such class"),
+                         "the same order transform mirrored onto the columns of the transposed response is served by another helper (payload order / another measure): labels, index lists and every measure stop being each other's counterparts")
+    ctx.count("order dispatch cases", n)
+    ctx.require_min("order dispatch cases", 10)
